@@ -643,3 +643,183 @@ Qed.
 Lemma empty_Inv : Inv empty_store.
 Proof. split; [split; [constructor|reflexivity]|constructor]. Qed.
 
+
+(* ---------- the management API refines the ordered-set specification ---------- *)
+Definition op_guard (l : list rule) (op : sop) : Prop :=
+  match op with
+  | OAdd r | ORemove r => wf_rule r = true
+  | OAddMany rs | OAddManyEx rs | ORemoveMany rs => WF rs
+  | OUpdate o n => wf_rule o = true /\ wf_rule n = true /\ ~ In n l
+  | OUpdateMany os ns => WF os /\ WF ns /\ NoDup ns /\ (forall n, In n ns -> ~ In n l) /\ (forall n, In n ns -> ~ In n os)
+  | ORemoveFiltered fi fvs => in_range fi fvs l
+  | OClear => True
+  end.
+
+Lemma has_any_mem s rs : Inv s -> WF rs -> has_any s rs = existsb (fun r => mem_rule r (pol s)) rs.
+Proof.
+  intros I W. unfold has_any. induction rs as [|r t IH]; cbn [existsb]; [reflexivity|].
+  inversion W; subst. rewrite IH by assumption. rewrite (has_mem_rule s r I) by assumption. reflexivity.
+Qed.
+
+Lemma spec_remove_many_aff rs : forall l, existsb (fun r => mem_rule r l) rs = true ->
+  WF rs -> NoDup l -> snd (spec_remove_many l rs) <> [].
+Proof.
+  induction rs as [|r t IH]; intros l H W ND; cbn [existsb spec_remove_many] in *; [discriminate|].
+  destruct (spec_remove_many (remove_first r l) t) as [l' aff] eqn:E. cbn [snd].
+  destruct (mem_rule r l) eqn:M; [discriminate|]. cbn [orb] in H.
+  assert (R : remove_first r l = l) by (apply remove_first_notin; intros Hin; apply mem_rule_In in Hin; congruence).
+  rewrite R in E. inversion W; subst. specialize (IH l H H3 ND). rewrite E in IH. exact IH.
+Qed.
+
+Theorem api_refines prio s op : Inv s -> op_guard (pol s) op ->
+  Inv (fst (api_step prio s op)) /\
+  (pol (fst (api_step prio s op)), snd (api_step prio s op)) = spec_step prio (pol s) op.
+Proof.
+  intros I G. destruct op as [r|rs|rs|r|rs|o n|os ns|fi fvs|]; cbn [op_guard] in G; cbn [api_step spec_step].
+  - rewrite <- (has_mem_rule s r I G). destruct (has s r) eqn:H; cbn [fst snd]; [auto|].
+    split; [apply add_Inv; assumption|]. rewrite add_pol. reflexivity.
+  - rewrite <- (has_any_mem s rs I G). destruct (has_any s rs); cbn [fst snd]; [auto|].
+    destruct (add_many_spec prio rs s I G) as [I' [P' _]]. rewrite P'. auto.
+  - destruct (add_many_spec prio rs s I G) as [I' [P' _]]. cbn [fst snd]. rewrite P'. auto.
+  - destruct (remove_spec s r I G) as [I' [P' B']]. destruct (remove s r) as [s' b]. cbn [fst snd] in *.
+    split; [exact I'|]. rewrite P', B'. reflexivity.
+  - rewrite <- (has_any_mem s rs I G). destruct (has_any s rs) eqn:H; cbn [fst snd]; [|auto].
+    destruct (remove_many_spec rs s I G) as [I' [P' A']]. destruct (remove_many s rs) as [s' aff]. cbn [fst snd] in *.
+    split; [exact I'|]. rewrite P'. f_equal. f_equal.
+    rewrite (has_any_mem s rs I G) in H.
+    pose proof (spec_remove_many_aff rs (pol s) H G (NoDup_keys_NoDup _ (proj1 (proj1 I)))) as Hne.
+    rewrite <- A' in Hne. destruct aff; [congruence|reflexivity].
+  - destruct G as [Wo [Wn Nn]]. destruct (update_spec s o n I Wo Wn Nn) as [I' [P' B']].
+    destruct (update s o n) as [s' b]. cbn [fst snd] in *. split; [exact I'|]. rewrite P', B'. reflexivity.
+  - destruct G as [Wo [Wn [ND [Hf Hd]]]]. destruct (Nat.eqb (List.length os) (List.length ns)); cbn [fst snd]; [|auto].
+    destruct (update_many_spec s os ns I Wo Wn ND Hf Hd) as [I' Hs].
+    destruct (update_many s os ns) as [s' b]. cbn [fst snd] in *.
+    destruct (spec_update_many (pol s) os ns) as [l'|]; destruct Hs as [Hb Hp]; rewrite Hb, Hp; auto.
+  - destruct fvs as [|fv fvs']; cbn [fst snd]; [auto|].
+    destruct (remove_filtered_spec s fi (fv :: fvs') I G) as (s' & res & eff & E & I' & P' & _ & R').
+    rewrite E. cbn [fst snd]. split; [exact I'|]. rewrite P', R'. reflexivity.
+  - cbn [fst snd]. split; [apply empty_Inv|reflexivity].
+Qed.
+
+(* every reachable state: any sequence of guarded calls *)
+Fixpoint run_api (prio : option nat) (s : store) (ops : list sop) : store * list sres :=
+  match ops with
+  | [] => (s, [])
+  | op :: t => let '(s1, r) := api_step prio s op in let '(s2, rs) := run_api prio s1 t in (s2, r :: rs)
+  end.
+Fixpoint run_spec (prio : option nat) (l : list rule) (ops : list sop) : list rule * list sres :=
+  match ops with
+  | [] => (l, [])
+  | op :: t => let '(l1, r) := spec_step prio l op in let '(l2, rs) := run_spec prio l1 t in (l2, r :: rs)
+  end.
+Fixpoint guards (prio : option nat) (l : list rule) (ops : list sop) : Prop :=
+  match ops with
+  | [] => True
+  | op :: t => op_guard l op /\ guards prio (fst (spec_step prio l op)) t
+  end.
+
+Theorem run_refines prio ops : forall s, Inv s -> guards prio (pol s) ops ->
+  Inv (fst (run_api prio s ops)) /\
+  pol (fst (run_api prio s ops)) = fst (run_spec prio (pol s) ops) /\
+  snd (run_api prio s ops) = snd (run_spec prio (pol s) ops).
+Proof.
+  induction ops as [|op t IH]; intros s I G; cbn [run_api run_spec fst snd]; [auto|].
+  destruct G as [G1 G2]. destruct (api_refines prio s op I G1) as [I1 E1].
+  destruct (api_step prio s op) as [s1 r1]. destruct (spec_step prio (pol s) op) as [l1 r1'] eqn:Es.
+  cbn [fst snd] in *. inversion E1; subst. destruct (IH s1 I1 G2) as [I2 [P2 R2]].
+  destruct (run_api prio s1 t) as [s2 rs2]. destruct (run_spec prio (pol s1) t) as [l2 rs2'].
+  cbn [fst snd] in *. subst. auto.
+Qed.
+
+(* ---------- consequences at the level of the specification ---------- *)
+(* a call that reports false left the listed rules unchanged *)
+Theorem spec_false_unchanged prio l op : snd (spec_step prio l op) = RBool false -> fst (spec_step prio l op) = l.
+Proof.
+  destruct op as [r|rs|rs|r|rs|o n|os ns|fi fvs|]; cbn [spec_step].
+  - destruct (mem_rule r l); cbn [fst snd]; [reflexivity|discriminate].
+  - destruct (existsb _ rs); cbn [fst snd]; [reflexivity|discriminate].
+  - cbn [snd]. discriminate.
+  - cbn [fst snd]. intros H. inversion H as [M]. apply remove_first_notin. intros Hin. apply mem_rule_In in Hin. congruence.
+  - destruct (existsb _ rs); cbn [fst snd]; [discriminate|reflexivity].
+  - cbn [fst snd]. intros H. inversion H as [M]. apply replace_first_notin. intros Hin. apply mem_rule_In in Hin. congruence.
+  - destruct (Nat.eqb _ _); cbn [fst snd]; [|discriminate].
+    destruct (spec_update_many l os ns); cbn [fst snd]; [discriminate|reflexivity].
+  - destruct fvs; cbn [fst snd]; [discriminate|]. intros H. inversion H as [M].
+    apply filter_all. clear H. induction l as [|x t IH]; cbn [existsb forallb] in *; [reflexivity|].
+    apply orb_false_iff in M as [Mx Mt]. rewrite Mx, (IH Mt). reflexivity.
+  - cbn [snd]. discriminate.
+Qed.
+
+(* a single-rule call that reports true changed the listed rules *)
+Lemma remove_first_length r l : In r l -> S (List.length (remove_first r l)) = List.length l.
+Proof.
+  induction l as [|x t IH]; cbn [remove_first In List.length]; [tauto|]. intros H.
+  destruct (rule_eqb r x) eqn:E; [reflexivity|]. cbn [List.length]. rewrite IH; [reflexivity|].
+  destruct H as [H|H]; [subst; rewrite rule_eqb_refl in E; discriminate|exact H].
+Qed.
+
+Theorem spec_true_changed prio l op : NoDup l ->
+  match op with
+  | OAdd _ | ORemove _ | ORemoveMany _ | ORemoveFiltered _ _ => True
+  | OUpdate o n => o <> n /\ ~ In n l
+  | _ => False
+  end ->
+  snd (spec_step prio l op) = RBool true -> fst (spec_step prio l op) <> l.
+Proof.
+  intros ND G. destruct op as [r|rs|rs|r|rs|o n|os ns|fi fvs|]; try contradiction; cbn [spec_step].
+  - destruct (mem_rule r l); cbn [fst snd]; [discriminate|]. intros _ E.
+    pose proof (Permutation_length (spec_insert_perm prio l r)) as HL. rewrite E in HL. cbn [List.length] in HL. lia.
+  - cbn [fst snd]. intros H E. inversion H as [M]. apply mem_rule_In in M. apply remove_first_length in M. rewrite E in M. lia.
+  - destruct (existsb (fun r => mem_rule r l) rs) eqn:Ex; cbn [fst snd]; [|discriminate]. intros _ E.
+    apply existsb_exists in Ex as [r [Hr M]]. apply mem_rule_In in M.
+    assert (Hgone : forall rs l, In r rs -> NoDup l -> ~ In r (fst (spec_remove_many l rs))).
+    { clear. induction rs as [|x t IH]; intros l Hin ND; [contradiction|]. cbn [spec_remove_many].
+      destruct (spec_remove_many (remove_first x l) t) as [l' aff] eqn:Es. cbn [fst].
+      assert (NDr : forall x l, NoDup l -> NoDup (remove_first x l)).
+      { clear. intros x l. induction l as [|y t IH]; cbn [remove_first]; intros H; [constructor|]. inversion H; subst.
+        destruct (rule_eqb x y); [assumption|]. constructor; [|auto]. intros Hin. apply H2.
+        clear - Hin. induction t as [|z t IH]; cbn [remove_first] in Hin; [contradiction|].
+        destruct (rule_eqb x z); [right; exact Hin|]. destruct Hin as [->|Hin]; [left; reflexivity|right; auto]. }
+      assert (Hsub : forall rs l y, In y (fst (spec_remove_many l rs)) -> In y l).
+      { clear. induction rs as [|x t IH]; intros l y; cbn [spec_remove_many]; [auto|].
+        destruct (spec_remove_many (remove_first x l) t) as [l' aff] eqn:Es. cbn [fst]. intros Hy.
+        specialize (IH (remove_first x l) y). rewrite Es in IH. specialize (IH Hy).
+        clear - IH. induction l as [|z l IHl]; cbn [remove_first] in IH; [contradiction|].
+        destruct (rule_eqb x z); [right; exact IH|]. destruct IH as [->|IH]; [left; reflexivity|right; auto]. }
+      destruct Hin as [->|Hin].
+      - intros Hl'. specialize (Hsub t (remove_first r l) r). rewrite Es in Hsub. specialize (Hsub Hl').
+        clear - Hsub ND. induction l as [|z l IHl]; cbn [remove_first] in Hsub; [contradiction|]. inversion ND; subst.
+        destruct (rule_eqb r z) eqn:E; [apply rule_eqb_eq in E; subst; contradiction|].
+        destruct Hsub as [->|Hs]; [rewrite rule_eqb_refl in E; discriminate|auto].
+      - specialize (IH (remove_first x l) Hin (NDr x l ND)). rewrite Es in IH. exact IH. }
+    apply (Hgone rs l Hr ND). rewrite E. exact M.
+  - destruct G as [Hne Nn]. cbn [fst snd]. intros H E. inversion H as [M]. apply mem_rule_In in M.
+    apply Nn. rewrite <- E. clear - M Hne. induction l as [|x t IH]; cbn [replace_first]; [contradiction|].
+    destruct (rule_eqb o x) eqn:Eo; [left; reflexivity|]. right. apply IH.
+    destruct M as [->|M]; [rewrite rule_eqb_refl in Eo; discriminate|exact M].
+  - destruct fvs; cbn [fst snd]; [discriminate|]. intros H E. inversion H as [M].
+    apply existsb_exists in M as [x [Hx Mx]]. rewrite <- E in Hx. apply filter_In in Hx as [_ Hx]. rewrite Mx in Hx. discriminate.
+Qed.
+
+(* the listed rules never contain a duplicate, whatever the calls *)
+Theorem Inv_NoDup s : Inv s -> NoDup (pol s).
+Proof. intros [[ND _] _]. apply NoDup_keys_NoDup. exact ND. Qed.
+
+(* removal and update keep the relative order of the remaining rules *)
+Lemma remove_first_filter r l : NoDup l -> remove_first r l = filter (fun x => negb (rule_eqb r x)) l.
+Proof.
+  induction l as [|x t IH]; intros ND; cbn [remove_first filter]; [reflexivity|]. inversion ND; subst.
+  destruct (rule_eqb r x) eqn:E; cbn [negb].
+  - apply rule_eqb_eq in E. subst x. symmetry. apply filter_all. apply forallb_forall. intros y Hy.
+    apply negb_true_iff. apply rule_eqb_neq. intros ->. contradiction.
+  - rewrite IH by assumption. reflexivity.
+Qed.
+
+Lemma replace_first_map o n l : NoDup l -> replace_first o n l = map (fun x => if rule_eqb o x then n else x) l.
+Proof.
+  induction l as [|x t IH]; intros ND; cbn [replace_first map]; [reflexivity|]. inversion ND; subst.
+  destruct (rule_eqb o x) eqn:E.
+  - apply rule_eqb_eq in E. subst x. f_equal. symmetry. rewrite <- (map_id t) at 2. apply map_ext_in.
+    intros y Hy. destruct (rule_eqb o y) eqn:E2; [apply rule_eqb_eq in E2; subst; contradiction|reflexivity].
+  - rewrite IH by assumption. reflexivity.
+Qed.
